@@ -25,6 +25,12 @@ N(f, c)  == f[c][1]
 V(f, c)  == f[c][2]
 Bv(f, c) == f[c][5]
 
+\* of a set of cells of one depth, the one that comes first in that depth's list ("first in top-down order")
+PosIn(seq, c) == CHOOSE i \in DOMAIN seq : seq[i] = c
+FirstInLayer(T, cs) ==
+  IF cs = {} THEN {}
+  ELSE LET L == T.layers[T.dep[CHOOSE c \in cs : TRUE] + 1] IN {c \in cs : \A d \in cs : PosIn(L, c) <= PosIn(L, d)}
+
 ArgMax(cells, val(_)) == {c \in cells : \A d \in cells : val(c) >= val(d)}
 
 \* the value a cell competes with inside its depth
@@ -45,7 +51,7 @@ AtDepth(P, T, f, h, vmax) ==
   IF L = {} THEN [ret |-> {}, exp |-> {}, val |-> vmax]
   ELSE IF P.algo = "SOO"
   THEN LET un == {c \in L : N(f, c) = 0} IN
-       IF un # {} THEN [ret |-> un, exp |-> {}, val |-> vmax]
+       IF un # {} THEN [ret |-> FirstInLayer(T, un), exp |-> {}, val |-> vmax]
        ELSE LET best == ArgMax(L, LAMBDA c : V(f, c))
                 m == V(f, CHOOSE c \in best : TRUE)
             IN IF m >= vmax THEN [ret |-> {}, exp |-> best, val |-> m] ELSE [ret |-> {}, exp |-> {}, val |-> vmax]
@@ -78,7 +84,7 @@ Fuel(T) == 2     \* at most one wrap is ever needed: a fresh sweep acts at the f
 AllLeaves(T) == UNION {LeavesAt(T, h) : h \in 0 .. T.pdepth}
 DooUnevaluated(T, f) ==
   LET un == {c \in AllLeaves(T) : N(f, c) = 0} IN
-  {c \in un : \A d \in un : T.dep[c] <= T.dep[d]}        \* first in top-down order: minimal depth
+  FirstInLayer(T, {c \in un : \A d \in un : T.dep[c] <= T.dep[d]})        \* first in top-down order: minimal depth, then list order
 DooBest(T, f) == ArgMax({c \in AllLeaves(T) : N(f, c) = 1}, LAMBDA c : Bv(f, c))
 
 (***************************************************************************)
